@@ -81,13 +81,13 @@ def base_layouts(keys):
 
 
 def secondary(tier, n, seed=0):
-    full = [dict(valname=v, rowperm=r, colperm=c, medium=m, sparse=s) for v in ("value", "amount") for r in ROWPERMS for c in COLPERMS for m in ("memory", "csv") for s in (False, True)]
+    full = [dict(valname=v, rowperm=r, colperm=c, medium=m, sparse=s, rowindex=ri) for v in ("value", "amount") for r in ROWPERMS for c in COLPERMS for m in ("memory", "csv") for s in (False, True) for ri in ("default", "repeat")]
     if tier == "thorough":
         return full
     # quick: three members of the full product per base layout, rotating so that every value of every axis
     # (and many pairs) occurs across the base layouts of a dimension set
     k = (n * 7 + seed * 5) % len(full)
-    return [full[(k + 13 * m) % len(full)] for m in range(6)]
+    return [full[(k + 13 * m) % len(full)] for m in range(8)]
 
 
 def bounds(tier):
@@ -163,6 +163,21 @@ def run_todf_case(keys, mode):
         return "fail", dict(case=case, tags=tags, what=f"{desc}: {what}", **kw)
 
     kind, index, dtc = mode[:3]
+    # prelude: the same export on a DECOY array whose dimensions have the same names, letters and lengths
+    # but other items (an export must not remember labels from an earlier export)
+    try:
+        from flodym import Dimension, DimensionSet
+
+        dd = DimensionSet(dim_list=[Dimension(name=F.POOL[k][0], letter=F.POOL[k][1], items=[(9000 + i) if isinstance(F.POOL[k][2][0], int) else f"decoy{i}" for i in range(len(F.POOL[k][2]))], dtype=F.POOL[k][3]) for k in keys])
+        decoy = FlodymArray(dims=dd, values=np.arange(float(dd.total_size)).reshape(dd.shape) + 1.0)
+        dkw = dict(index=index)
+        if kind == "sparse":
+            dkw["sparse"] = True
+        if dtc is not None:
+            dkw["dim_to_columns"] = F.POOL[dtc][0]
+        decoy.to_df(**dkw)
+    except Exception:
+        pass
     kw = dict(index=index)
     if kind == "sparse":
         kw["sparse"] = True
@@ -230,6 +245,33 @@ def run_dup_case(keys, header, i, j, where, allow_missing):
     return "fail", dict(case=case, tags=dict(header=header, kind="duplicate-accepted", allow_missing=allow_missing), what=f"dims {[F.POOL[k][0] for k in keys]}: label combination {recs[i][0]} occurs in two rows with different values (row {j} dropped, so the row count matches) but from_df returned an array (entry = {float(got.values[tuple(F.POOL[k][2].index(recs[i][0][k]) for k in keys)])})")
 
 
+def run_extra_case(keys, header, i, d, allow_missing, rowindex):
+    """a row with an unknown item (in a dimension identified by name or letter) under allow_extra_values:
+    every entry that is set must still come from the row carrying its labels"""
+    from flodym import FlodymArray
+
+    case = dict(kind="extra", keys=keys, header=header, i=i, d=d, allow_missing=allow_missing, rowindex=rowindex)
+    recs = F.records(keys)
+    lab = dict(recs[i][0])
+    lab[d] = "zz" if isinstance(F.POOL[d][2][0], str) else 9999
+    rows = list(recs)
+    rows.insert((i * 7) % (len(rows) + 1), (lab, 4242.5))
+    if allow_missing:
+        rows = [r for k, r in enumerate(rows) if r[0] is lab or k != (i + 1) % len(rows)]
+    df, info = F.build_frame(keys, rows, dict(wide=None, index=[], header=header, rowindex=rowindex))
+    st, got = attempt(lambda: FlodymArray.from_df(dims=F.make_dims(keys), df=df, allow_missing_values=allow_missing, allow_extra_values=True))
+    if st == "raised":
+        return "fail", dict(case=case, tags=dict(header=header, kind="extra-refused", outcome="refused-extra"), what=f"dims {[F.POOL[k][0] for k in keys]}: a row with an unknown {F.POOL[d][0]} item under allow_extra_values was refused: {got}")
+    want = np.zeros(tuple(len(F.POOL[k][2]) for k in keys))
+    for l2, v in rows:
+        if all(l2[k] in F.POOL[k][2] for k in keys):
+            want[tuple(F.POOL[k][2].index(l2[k]) for k in keys)] = v
+    if got.values.shape != want.shape or not np.array_equal(got.values, want):
+        bad = np.argwhere(got.values != want)[0] if got.values.shape == want.shape else None
+        return "fail", dict(case=case, tags=dict(header=header, kind="extra-wrong-values"), what=f"dims {[F.POOL[k][0] for k in keys]}, unknown {F.POOL[d][0]} item in an extra row (allow_extra_values, allow_missing_values={allow_missing}, row index {rowindex}): entry {None if bad is None else tuple(int(b) for b in bad)} is {None if bad is None else got.values[tuple(bad)]!r}, the row with these labels holds {None if bad is None else want[tuple(bad)]!r}")
+    return "extras-ignored-correctly", None
+
+
 def todf_modes(keys):
     modes = [("long", True, None), ("long", False, None), ("sparse", True, None), ("sparse", False, None)]
     if len(keys) >= 2:
@@ -263,6 +305,12 @@ def run_unit(u):
                         for where in ("end", "start", "adjacent"):
                             for am in (False, True):
                                 rec(*run_dup_case(keys, header, i, j, where, am))
+            for header in ("names", "letters"):
+                for i in range(n):
+                    for d in keys:
+                        for am in (False, True):
+                            for ri in ("default", "repeat"):
+                                rec(*run_extra_case(keys, header, i, d, am, ri))
         return res
     for n, base in enumerate(base_layouts(keys)):
         for sec in secondary(tier, n, u.get("seed", 0)):
@@ -279,6 +327,8 @@ def run_unit(u):
 def replay(case):
     if case["kind"] == "layout":
         oc, f = run_case(case["keys"], case["layout"])
+    elif case["kind"] == "extra":
+        oc, f = run_extra_case(case["keys"], case["header"], case["i"], case["d"], case["allow_missing"], case["rowindex"])
     elif case["kind"] == "dup":
         oc, f = run_dup_case(case["keys"], case["header"], case["i"], case["j"], case["where"], case["allow_missing"])
     else:
